@@ -12,8 +12,8 @@
 EXTENDS Integers, Sequences, FiniteSets, TermAlgebra
 
 Signs == {"+", "-"}
-E(k, s) == [k |-> k, s |-> s, vars |-> <<>>]
-EV(k, s, vars) == [k |-> k, s |-> s, vars |-> vars]
+E(k, s) == [k |-> k, s |-> s, vars |-> <<>>, num |-> s = "1", ival |-> IF s = "1" THEN 1 ELSE -1]
+EV(t) == [k |-> t.k, s |-> t.s, vars |-> t.vars, num |-> t.num, ival |-> t.ival]
 
 (* 1. flatten operator runs to a stream of operator characters; `in` and `.` are atoms *)
 RECURSIVE Flatten(_)
@@ -25,7 +25,7 @@ Flatten(toks) ==
              ELSE IF t.cs = <<".">> THEN <<E("dot", ".")>>
              ELSE [i \in DOMAIN t.cs |-> E("opc", t.cs[i])]
         ELSE IF t.k = "value" /\ t.s = "0" THEN <<E("opc", "-"), E("value", "1")>>        \* the literal 0 is "- 1"
-        ELSE <<EV(t.k, t.s, t.vars)>>) \o Flatten(Tail(toks))
+        ELSE <<EV(t)>>) \o Flatten(Tail(toks))
 
 (* 2. documented intercept rewriting on the character stream *)
 RECURSIVE TopTilde(_, _, _)
@@ -77,8 +77,8 @@ Binary == {"+", "-", "*", "/", "in", ":", "**", "^"}
 
 R(v, i, err) == [v |-> v, i |-> i, err |-> err]
 
-PosInt(s) == CASE s = "1" -> 1 [] s = "2" -> 2 [] s = "3" -> 3 [] s = "4" -> 4 [] OTHER -> 0
-PowerArg(r) == IF Len(r) = 1 /\ Len(r[1]) = 1 /\ r[1][1].m = "literal" THEN PosInt(r[1][1].e) ELSE 0
+PowerArg(r) == IF Len(r) = 1 /\ Len(r[1]) = 1 /\ r[1][1].m = "literal" /\ r[1][1].ival >= 1 THEN r[1][1].ival ELSE 0
+MaxPower == 6
 
 \* the documented meaning of each operator
 Meaning(o, l, r) ==
@@ -88,7 +88,7 @@ Meaning(o, l, r) ==
     [] o = "*" -> [ok |-> TRUE, v |-> Union(Union(l, DedupTerms(r, {})), Cross(l, r))]
     [] o = "/" -> [ok |-> l # <<>>, v |-> IF l = <<>> THEN <<>> ELSE Nest(l, r)]
     [] o = "in" -> [ok |-> r # <<>>, v |-> IF r = <<>> THEN <<>> ELSE Nest(r, l)]
-    [] OTHER -> LET n == PowerArg(r) IN [ok |-> n > 0, v |-> IF n > 0 THEN Power(l, n) ELSE <<>>]
+    [] OTHER -> LET n == PowerArg(r) IN [ok |-> n > 0, v |-> IF n > 0 /\ n <= MaxPower THEN Power(l, n) ELSE <<>>]
 
 Method(k) == CASE k = "name" -> "lookup" [] k = "python" -> "python" [] OTHER -> "literal"
 
@@ -110,7 +110,7 @@ ParseE(f, i, minp, env) ==
                  THEN R(<<>>, a.i, "unbalanced")
                  ELSE ParseLoop(f, a.v, a.i + 1, minp, env)
        ELSE IF t.k \in {"name", "value", "python"}
-       THEN ParseLoop(f, << <<Fac(t.s, Method(t.k))>> >>, i + 1, minp, env)
+       THEN ParseLoop(f, << <<IF t.k = "value" THEN LitFac(t.s, t.num, t.ival) ELSE Fac(t.s, Method(t.k))>> >>, i + 1, minp, env)
        ELSE IF t.k = "dot"
        THEN IF env.dotok THEN ParseLoop(f, env.dot, i + 1, minp, env) ELSE R(<<>>, i, "dot-needs-context")
        ELSE R(<<>>, i, "operand-expected")
@@ -137,11 +137,10 @@ ParseSide(f, i, env, multipart) ==
        ELSE [parts |-> <<a.v>>, i |-> a.i, err |-> ""]
 
 (* 5. literals other than 1 only scale; a term may not occur with two scalings *)
-NumericLit(e) == e \in {"0", "1", "2", "3", "4", "5", "2.5"}
 WellFormed(ts) ==
   /\ \A i \in DOMAIN ts : LET t == ts[i] IN
         /\ ~(Len(t) = 1 /\ IsLiteral(t[1]) /\ t[1].e # "1")
-        /\ \A j \in DOMAIN t : IsLiteral(t[j]) => NumericLit(t[j].e)
+        /\ \A j \in DOMAIN t : IsLiteral(t[j]) => t[j].num
   /\ \A i, j \in DOMAIN ts : i # j =>
         ExprSeq(SelectSeq(ts[i], LAMBDA x : ~IsLiteral(x))) # ExprSeq(SelectSeq(ts[j], LAMBDA x : ~IsLiteral(x)))
 
@@ -149,6 +148,7 @@ Reject(why) == [st |-> "REJECT", why |-> why, shape |-> "root", lhs |-> <<>>, rh
 Accept(shape, l, r) == [st |-> "OK", why |-> "", shape |-> shape, lhs |-> l, rhs |-> r]
 Unmodelled == [st |-> "UNMODELLED", why |-> "", shape |-> "root", lhs |-> <<>>, rhs |-> <<>>]
 
+BigPower(f) == \E i \in DOMAIN f : f[i].k = "value" /\ f[i].ival > MaxPower
 UsesMultistage(f) == \E i \in DOMAIN f : f[i].k = "open" /\ f[i].s = "[" /\
                         \E j \in DOMAIN f : j > i /\ f[j].k = "op" /\ f[j].s = "~"
 
@@ -165,7 +165,7 @@ Ref(cfg, toks) ==
       env == [dotok |-> cfg.avail.present, dot |-> OSet([i \in DOMAIN av |-> <<Fac(av[i], "lookup")>>])]
       multipart == "MULTIPART" \in cfg.flags
   IN IF f = <<>> THEN Accept("root", <<>>, << <<>> >>)
-     ELSE IF "MULTISTAGE" \in cfg.flags /\ UsesMultistage(f) THEN Unmodelled
+     ELSE IF ("MULTISTAGE" \in cfg.flags /\ UsesMultistage(f)) \/ BigPower(f) THEN Unmodelled
      ELSE IF f[1].k = "op" /\ f[1].s = "~"
           THEN LET r == ParseSide(f, 2, env, multipart) IN
                IF r.err # "" THEN Reject(r.err)
